@@ -66,8 +66,17 @@ int main() {
             else if (i % 8 == 0 && !manifest.shards.empty()) { p.assigned_shards = {manifest.shards[0].index}; }
             TA::pow(*receiver, p);
             if (kind == 3 && d > 0) {
-                // a nonce that does NOT meet the target
-                do { p.work_nonce += 1; } while (ephemeralnet::announce_pow_valid(p, static_cast<std::uint8_t>(d)));
+                // a nonce whose digest has exactly d-1 leading zero bits (one bit short), counted HERE and not by the node's
+                // own validator, so that a validator that is too lenient cannot vouch for itself
+                auto zero_bits = [](const std::array<std::uint8_t, 32>& dg) {
+                    int n = 0;
+                    for (auto b : dg) { if (b == 0) { n += 8; continue; } for (int k = 7; k >= 0 && !((b >> k) & 1); --k) ++n; break; }
+                    return n;
+                };
+                for (int tries = 0; tries < 200000; ++tries) {
+                    p.work_nonce += 1;
+                    if (zero_bits(ephemeralnet::announce_pow_digest(p)) == static_cast<int>(d) - 1) break;
+                }
             }
             const ChunkId observed = (kind == 6) ? manifest.chunk_id : p.chunk_id;
             TA::announce(*receiver, p, sender, static_cast<std::uint8_t>(ver));
